@@ -117,6 +117,7 @@ func TestVerifKeyPath(t *testing.T) {
 	sc := bufio.NewScanner(fi)
 	sc.Buffer(make([]byte, 1<<20), 1<<26)
 	n := 0
+	var held []map[string]interface{}
 	for sc.Scan() {
 		if len(sc.Bytes()) == 0 {
 			continue
@@ -160,13 +161,18 @@ func TestVerifKeyPath(t *testing.T) {
 		}
 		v["id"] = n
 		v["rok"] = kerr == nil && !panicked
-		v["rkeys"] = keys
+		v["rkeys"] = keys // the slice the function returned, looked at only after every other vector has run
 		v["panic"] = panicked
 		v["pmsg"] = pmsg
+		held = append(held, v)
+		n++
+	}
+	// results are written out at the end: a returned slice must still hold the extracted keys after later extractions
+	// (a caller such as the BIND completion consumes it key by key while other calls extract theirs)
+	for _, v := range held {
 		if e := enc.Encode(v); e != nil {
 			t.Fatal(e)
 		}
-		n++
 	}
 	fmt.Printf("VERIF-KEYPATH vectors=%d\n", n)
 }
